@@ -6,5 +6,6 @@ export GOFLAGS=-mod=mod GOPROXY=off
 mkdir -p .build work evidence replays
 ( cd harness && go build -tags verif -o ../.build/verifh ./cmd/verifh )
 ( cd harness && go build -race -tags verif -o ../.build/verifh-race ./cmd/verifh )
+( cd harness && go build -tags verif -o ../.build/c18built ./cmd/c18built )
 python3 -c "import xml.parsers.expat, hashlib, base64, json; print('python oracles ok')"
 echo setup ok
